@@ -71,9 +71,8 @@ def requests(ctx):
     # 1..n value-change blocks, snapshot as frame or as records, packed / ASCII / 1-bit record forms, raw / zlib streams
     from . import ghwgen
     for _ in range(400 if quick else 6000):
-        d, _g, _v, f = ghwgen.gen_triple(rng)
-        unit = "fs" if f[73] == 0xF1 else "ps"
-        rq.append(f"fstfile {d} {unit} {f.hex()}")
+        d, _g, _v, f, e = ghwgen.gen_triple(rng)
+        rq.append(f"fstfile {d} {e} {f.hex()}")
     return rq
 
 
